@@ -231,23 +231,8 @@ func c09(r *core.Run) {
 		return out
 	}
 	errReturned := func(fn *ssa.Function, c *ssa.Call) bool {
-		_, bad := core.AtomEdges(fn, core.ErrNilAtom(func(x *ssa.Call) bool { return x == c }))
-		if len(bad) == 0 {
-			return false
-		}
-		reach := core.ReachBlocks(edgeTargets(bad), nil)
-		n := 0
-		for b := range reach {
-			ret, isRet := b.Instrs[len(b.Instrs)-1].(*ssa.Return)
-			if !isRet {
-				continue
-			}
-			n++
-			if cc, _ := core.CallOf(ret.Results[len(ret.Results)-1]); cc != c {
-				return false
-			}
-		}
-		return n > 0
+		ok, _ := errMustSurface(fn, c)
+		return ok
 	}
 	// root first
 	rootCalls := fnCalls(it, it.Params[1])
